@@ -114,6 +114,9 @@ def handleC14Mut (fs : List (String × String)) : String := Id.run do
 
 def handleC15 (kind : String) (fs : List (String × String)) : String :=
   match kind with
+  | "race" =>
+      let bad := getD fs "bad" "-"
+      verdict (bad == "-") (if bad == "-" then none else some bad) ((getNat fs "packets").getD 0 ≥ 8) "race" ""
   | "tap" => if (get fs "err").isSome then "PARSE create" else
       let bad := getD fs "bad" "-"
       let n := (getNat fs "packets").getD 0 + (getNat fs "streams").getD 0
